@@ -341,25 +341,29 @@ func independent(x any, seen map[uintptr]bool) bool {
 	return true
 }
 
-// c07Decode performs one real decode of the case in the given mode.
-func c07Decode(c obj, mode string) obj {
-	if c["poison"] == true {
-		// history: this process has just REJECTED documents (bad keys met half-way through a mapping, a value
-		// cycle). What a decode gives never depends on what was decoded - or refused - before it
-		// (the last ones are refused half-way through the keys of their ROOT mapping: nothing decoded after them
-		// in this history could tidy up behind them)
-		for _, src := range []string{"&a {x: 1, y: [*a ]}", "{x: {y: 1, 12: 2, ? {q: 1} : 2}}", "a: &a {x: 1, y: 2, ? *a : z}",
-			"{y: 1, x: 2, ~: oops}", "{x: 1, y: 2, \"12\": 3, \"true\": 4, [q]: oops}"} {
-			var n yaml.Node
-			if err := yaml.Unmarshal([]byte(src), &n); err == nil {
-				_, _ = ordered.DecodeYAML(&n)
-				m := ordered.NewMap[string, any](0)
-				if len(n.Content) > 0 {
-					_ = m.UnmarshalYAML(n.Content[0])
-				}
+// c07Poison: history. This process has just REJECTED documents (bad keys met half-way through a mapping, a value
+// cycle). What a decode gives never depends on what was decoded - or refused - before it. Called right before the
+// decode of a case that asks for it (never for a skipped mode: every event carries its own history).
+func c07Poison() {
+	// history: this process has just REJECTED documents (bad keys met half-way through a mapping, a value
+	// cycle). What a decode gives never depends on what was decoded - or refused - before it
+	// (the last ones are refused half-way through the keys of their ROOT mapping: nothing decoded after them
+	// in this history could tidy up behind them)
+	for _, src := range []string{"&a {x: 1, y: [*a ]}", "{x: {y: 1, 12: 2, ? {q: 1} : 2}}", "a: &a {x: 1, y: 2, ? *a : z}",
+		"{y: 1, x: 2, ~: oops}", "{x: 1, y: 2, \"12\": 3, \"true\": 4, [q]: oops}"} {
+		var n yaml.Node
+		if err := yaml.Unmarshal([]byte(src), &n); err == nil {
+			_, _ = ordered.DecodeYAML(&n)
+			m := ordered.NewMap[string, any](0)
+			if len(n.Content) > 0 {
+				_ = m.UnmarshalYAML(n.Content[0])
 			}
 		}
 	}
+}
+
+// c07Decode performs one real decode of the case in the given mode.
+func c07Decode(c obj, mode string) obj {
 	g := asMap(c["g"])
 	root, _ := c["root"].(string)
 	seed := int64(1)
@@ -423,6 +427,9 @@ func c07Decode(c obj, mode string) obj {
 				return res{v, nil}
 			}
 		}
+	}
+	if c["poison"] == true {
+		c07Poison()
 	}
 	done := make(chan res, 1)
 	var pmsg string
@@ -502,6 +509,9 @@ func runC07(args []string) {
 		modes := c07Modes
 		if m := fl.str("mode", ""); m != "" {
 			modes = []string{m}
+		}
+		if cm, ok := c["mode"].(string); ok && cm != "" {
+			modes = []string{cm} // a replayed event: the case names its own mode, so that a replayed HISTORY is the original sequence of decodes
 		}
 		for _, mode := range modes {
 			var ev obj
